@@ -716,15 +716,22 @@ class Judge:
 
     def add(self, t: dict) -> None:
         self.batch.append(t)
-        if len(self.batch) >= 2500:
+        if len(self.batch) >= 3200:
             self.flush()
 
     def flush(self) -> None:
         if not self.batch:
             return
+        from concurrent.futures import ThreadPoolExecutor
+
         traces, self.batch = self.batch, []
-        verdicts, res = validate_batch("WireDecisionTrace", self.cfg, traces, timeout=1500)
-        self.ctx.add_trace_batch(len(traces), res)
+        chunks = [traces[i:i + 800] for i in range(0, len(traces), 800)]     # one TLC (one worker) per chunk, in parallel
+        with ThreadPoolExecutor(max_workers=4) as ex:
+            outs = list(ex.map(lambda ch: validate_batch("WireDecisionTrace", self.cfg, ch, timeout=1500), chunks))
+        verdicts: List[Any] = []
+        for ch, (vs, res) in zip(chunks, outs):
+            self.ctx.add_trace_batch(len(ch), res)
+            verdicts += vs
         for t, v in zip(traces, verdicts):
             self.n += 1
             key = (t["src"].split(":")[0], json.dumps(t["cfg"]["rinp"], sort_keys=True), json.dumps(t["cfg"]["qinp"], sort_keys=True))
@@ -814,23 +821,47 @@ def describe_cex(res: Any) -> str:
 
 
 def model_runs(ctx: Ctx) -> None:
+    from concurrent.futures import ThreadPoolExecutor
+    from engine import tlc as _t
+
     coded = as_coded()
     ideal = {k: True for k in DEVIATIONS}
-    # ideal design: all invariants over the full product; the POSTCONDITION enumerates, for every deviation switched
-    # off alone, the invariants it breaks and a witness input (constant-level evaluation inside TLC)
-    res = run_tlc("WireDecision", write_cfg("ideal", ideal, INVS, post="PrintExhibits"), workers=16, timeout=900,
-                  deadlock=False)
+    names = list(DEVIATIONS)
+    parts = [names[i::3] for i in range(3)]
+
+    def exhibit(part: List[str]) -> Any:
+        cfg = write_cfg("exhibit", ideal, [], spec="XSpec", post="PrintSome")
+        with open(cfg, "a") as f:
+            f.write("CONSTANT ExhibitSet = {%s}\n" % ", ".join('"%s"' % k for k in part))
+        return run_tlc("WireDecisionExhibit", cfg, workers=1, timeout=900, deadlock=False, heap="2g")
+
+    jobs = [
+        lambda: run_tlc("WireDecision", write_cfg("ideal", ideal, INVS), workers=16, timeout=900, deadlock=False),
+        lambda: run_tlc("WireDecision", write_cfg("ascoded", coded, [i + "ButKnown" for i in INVS]), workers=16,
+                        timeout=900, deadlock=False),
+    ] + [(lambda p=p: exhibit(p)) for p in parts]
+    with ThreadPoolExecutor(max_workers=len(jobs)) as ex:
+        results = list(ex.map(lambda j: j(), jobs))
+    res, res2, xs = results[0], results[1], results[2:]
+    # ideal design: all invariants over the full product
     ctx.expect_model_ok("WireDecision[ideal: all deviation constants TRUE]", res)
     ctx.log(f"model ideal: {res.distinct} states, {res.wall_s:.1f}s, violated={res.violated}")
-    exhibits = {v[1]: v for v in res.printed if v and v[0] == "E"}
-    res2 = run_tlc("WireDecision", write_cfg("ascoded", coded, [i + "ButKnown" for i in INVS]), workers=16, timeout=900,
-                   deadlock=False)
+    # the code as found: the invariants hold outside the regions of the deviations that are still open
     ctx.expect_model_ok("WireDecision[as-coded, named deviations carved out]", res2)
     ctx.log(f"model as-coded (ButKnown): {res2.distinct} states, {res2.wall_s:.1f}s, violated={res2.violated}")
+    # every deviation switched off alone (everything else ideal): which invariants break, where
+    exhibits: Dict[str, Any] = {}
+    for r in xs:
+        _t.require_clean(r, "WireDecisionExhibit")
+        for v in r.printed:
+            if v and v[0] == "E":
+                exhibits[v[1]] = v
+    ctx.log(f"exhibit enumeration: {max(r.wall_s for r in xs):.1f}s")
     if set(exhibits) != set(DEVIATIONS):
-        raise MachineryError(f"PrintExhibits reported {sorted(exhibits)}, expected {sorted(DEVIATIONS)}")
+        raise MachineryError(f"Exhibit reported {sorted(exhibits)}, expected {sorted(DEVIATIONS)}")
     summary = {}
-    for k, v in exhibits.items():
+    for k in names:
+        v = exhibits[k]
         broken, count, wit = sorted(v[2]), v[3], v[4]
         summary[k] = {"breaks": broken, "inputs": count}
         if not broken:
@@ -875,6 +906,7 @@ def run(ctx: Ctx) -> None:
         "secondary dimensions (URL shape, header sets, cookies, sizes around 2 KiB / 64 KiB, reason, write step) are sampled",
     ]
     model_runs(ctx)
+    model_level, ctx.violations = list(ctx.violations), []
     loop = steploop.new_loop()
     world = World(loop)
     coded = as_coded()
@@ -905,6 +937,13 @@ def run(ctx: Ctx) -> None:
         execute(ctx, world, judge, req_plan(world, c, rng), k)
         k += 1
     judge.flush()
+    # order: one recorded execution per failing clause first (the runner stores a replay file for the first few
+    # distinct violations only), then the other signatures, then TLC's model-level witnesses
+    firsts, rest, seen_cl = [], [], set()
+    for v in ctx.violations:
+        (rest if v.clause in seen_cl else firsts).append(v)
+        seen_cl.add(v.clause)
+    ctx.violations = firsts + model_level + rest
     ctx.log(f"{k} combinations, {judge.n} executions judged; failing clauses: {judge.clauses}")
     ctx.extra["clause_counts"] = dict(judge.clauses)
     ctx.extra["segmentation_counts"] = dict(ctx.action_cover)
